@@ -93,6 +93,20 @@ func scenariosFor(prop string) []scn {
 		both(flowParams{Sources: 1, Records: 3, Batch: 3, Dests: 1, AckMenu: onlyOK, SrcPositions: "dup", Stop: "force"}, 1, 2)
 		both(flowParams{Sources: 1, Records: 3, Batch: 3, Dests: 1, AckMenu: okNack, SrcPositions: "empty", Stop: "force"}, 1, 2)
 		both(flowParams{Sources: 1, Records: 2, Batch: 1, Dests: 1, AckMenu: onlyOK, ReadMenu: []string{"ok", "err", "fatal"}, Stop: "force"}, 2, 3)
+	case "C10":
+		for _, retries := range []int{-1, 1, 2} {
+			both(flowParams{Sources: 1, Records: 2, Batch: 1, Dests: 1, AckMenu: []string{"ok", "err"}, ReadMenu: []string{"ok", "err", "fatal"}, Retries: retries}, 2, 3)
+		}
+		both(flowParams{Sources: 1, Records: 2, Batch: 1, Dests: 1, AckMenu: okNack, DLQMenu: okNack, Retries: 1}, 2, 3)
+		both(flowParams{Sources: 1, Records: 3, Batch: 1, Dests: 1, AckMenu: okNack, Window: 2, Thresh: 1, Retries: 1}, 2, 3)
+		both(flowParams{Sources: 1, Records: 2, Batch: 1, Dests: 1, AckMenu: []string{"ok", "err"}, ReadMenu: []string{"ok", "err", "fatal"}, Stop: "stopwait", Retries: 2}, 2, 3)
+		both(flowParams{Sources: 1, Records: 2, Batch: 1, Dests: 1, AckMenu: []string{"ok", "err", "nack"}, DLQMenu: okNack, ReadMenu: []string{"ok", "err", "fatal"}, Stop: "stopall", Retries: 2}, 2, 3)
+		both(flowParams{Sources: 1, Records: 2, Batch: 1, Dests: 1, AckMenu: onlyOK, Stop: "stopall"}, 2, 3)
+		// a fatal failure (rejected DLQ write) arriving while the server is shutting down / the user is stopping
+		both(flowParams{Sources: 1, Records: 2, Batch: 1, Dests: 1, AckMenu: []string{"nack", "ok"}, DLQMenu: []string{"nack", "ok"}, Stop: "stopall", Retries: 1}, 2, 3)
+		both(flowParams{Sources: 1, Records: 2, Batch: 1, Dests: 1, AckMenu: []string{"nack", "ok"}, DLQMenu: []string{"nack", "ok"}, Stop: "stopwait", Retries: 1}, 2, 3)
+		both(flowParams{Sources: 1, Records: 2, Batch: 1, Dests: 1, AckMenu: onlyOK, Stop: "stopwait"}, 2, 3)
+		both(flowParams{Sources: 1, Records: 2, Batch: 1, Dests: 2, AckMenu: []string{"ok", "err"}, Stop: "force", Retries: 1}, 1, 2)
 	case "C06":
 		both(flowParams{Sources: 1, Records: 3, Batch: 1, Dests: 1, AckMenu: onlyOK, Stop: "stopwait"}, 2, 4)
 		both(flowParams{Sources: 1, Records: 2, Batch: 1, Dests: 2, AckMenu: onlyOK, Stop: "stopwait"}, 2, 3)
